@@ -89,7 +89,9 @@ func childMain(args []string) int {
 	if err := syscall.Setrlimit(syscall.RLIMIT_AS, &syscall.Rlimit{Cur: rlimitAS, Max: rlimitAS}); err != nil {
 		fmt.Fprintf(os.Stderr, "c09 child: setrlimit RLIMIT_AS: %v (continuing without)\n", err)
 	}
-	debug.SetMemoryLimit(1 << 30)
+	// soft limit above the guard of the watchdog (a lower one makes the collector thrash long
+	// before the guard trips, turning a runaway allocation into a timeout)
+	debug.SetMemoryLimit(3 << 30)
 
 	ins, err := readInputs(*inputsPath)
 	if err != nil {
